@@ -97,7 +97,7 @@ fn world() -> &'static Mutex<World> {
   WORLD.get_or_init(|| {
     let dp = DomainParticipant::new(113).expect("participant");
     let qos = QosPolicyBuilder::new()
-      .reliability(policy::Reliability::Reliable { max_blocking_time: Duration::from_secs(0) })
+      .reliability(policy::Reliability::Reliable { max_blocking_time: Duration::from_secs(100_000) })
       .history(policy::History::KeepAll)
       .build();
     let sub = dp.create_subscriber(&qos).unwrap();
@@ -171,8 +171,9 @@ impl Obs {
   }
 }
 
-#[derive(Default, Debug)]
+#[derive(Default)]
 struct CRes {
+  cw: Option<Arc<CountWaker>>, // wakes are read when the whole run is over
   delivered: i64,
   leftover: i64,
   polls: i64,
@@ -188,7 +189,7 @@ const MAX_STEPS: u64 = 20_000;
 fn conclude(
   s: &Arc<Sched>,
   rx: mpsc::Receiver<CRes>,
-  hp: thread::JoinHandle<bool>,
+  hp: Producer,
   hc: thread::JoinHandle<()>,
 ) -> Obs {
   s.start();
@@ -198,7 +199,8 @@ fn conclude(
     return Obs::Hang;
   }
   let res = rx.recv_timeout(WATCHDOG);
-  let p_ok = match hp.join() {
+  let _ = hp.release.send(());
+  let p_ok = match hp.h.join() {
     Ok(ok) => ok,
     Err(_) => false,
   };
@@ -209,7 +211,7 @@ fn conclude(
       delivered: r.delivered,
       leftover: r.leftover,
       polls: r.polls,
-      wakes: r.wakes,
+      wakes: r.cw.as_ref().map_or(r.wakes, |c| c.wakes.load(Ordering::SeqCst) as i64),
       pends: r.pends,
     },
     Ok(_) => Obs::Panic,
@@ -251,6 +253,9 @@ struct ReaderParts {
   _disc_rx: mio_channel::Receiver<DiscoveryCommand>,
 }
 
+/// capacity of the mio-0.6 notification channel, as in Subscriber::create_datareader (pubsub.rs:1023)
+const NOTIF_CAP: usize = 4;
+
 static ENTITY_COUNTER: AtomicUsize = AtomicUsize::new(1);
 
 fn reader_parts() -> ReaderParts {
@@ -268,7 +273,7 @@ fn reader_parts() -> ReaderParts {
     &w.qos,
   );
   // capacities as in pubsub.rs:1023 (notification channel 4)
-  let (notification_sender, notification_receiver) = mio_channel::sync_channel::<()>(4);
+  let (notification_sender, notification_receiver) = mio_channel::sync_channel::<()>(NOTIF_CAP);
   let (event_source, poll_event_sender) = mio_source::make_poll_channel().unwrap();
   let (status_sender, status_receiver) = sync_status_channel::<DataReaderStatus>(4).unwrap();
   let (reader_command_sender, reader_command_receiver) =
@@ -306,8 +311,9 @@ fn reader_parts() -> ReaderParts {
 }
 
 /// producer thread of the reader-side handshakes: a real Reader receives n DATA submessages
-fn spawn_reader_producer(s: Arc<Sched>, ing: ReaderIngredients, n: i64) -> thread::JoinHandle<bool> {
-  thread::spawn(move || {
+fn spawn_reader_producer(s: Arc<Sched>, ing: ReaderIngredients, n: i64) -> Producer {
+  let (rel_tx, rel_rx) = mpsc::channel::<()>();
+  let h = thread::spawn(move || {
     let r = std::panic::catch_unwind(std::panic::AssertUnwindSafe(|| {
       let (ps_tx, _ps_rx) = sync_status_channel(16).unwrap();
       let mut reader = Reader::new(
@@ -333,10 +339,20 @@ fn spawn_reader_producer(s: Arc<Sched>, ing: ReaderIngredients, n: i64) -> threa
           sched::yield_point("P.sample_done");
         }
       }
+      sched::finish();
+      // keep the Reader (and with it the sending ends of the notification channels) alive until
+      // the consumer has been examined: dropping them is itself a notification
+      let _ = rel_rx.recv_timeout(WATCHDOG * 2);
     }));
     sched::finish();
     r.is_ok()
-  })
+  });
+  Producer { h, release: rel_tx }
+}
+
+struct Producer {
+  h: thread::JoinHandle<bool>,
+  release: mpsc::Sender<()>,
 }
 
 // ---------------------------------------------------------------------------------------------
@@ -384,10 +400,105 @@ fn run_a(n: i64, schedule: &[u8]) -> Obs {
         res.leftover += 1;
       }
     }
-    res.wakes = cw.wakes.load(Ordering::SeqCst) as i64;
+    res.cw = Some(cw.clone());
     res.panicked = r.is_err();
     let _ = tx.send(res);
     drop(sdr);
+    drop(_disc_rx);
+  });
+  conclude(&s, rx, hp, hc)
+}
+
+// ---------------------------------------------------------------------------------------------
+// (B) the documented mio pattern: poll; on the reader's token take_next_sample until None.
+// A real mio Poll (0.6: the notification channel's Registration, edge; 0.8: the socket pair via
+// epoll, edge) with zero time-out decides whether the consumer may move.
+fn run_b(v08: bool, n: i64, schedule: &[u8]) -> Obs {
+  let ReaderParts { ing, sdr, _disc_rx } = reader_parts();
+  let s = Sched::new(schedule, MAX_STEPS, false);
+  let hp = spawn_reader_producer(s.clone(), ing, n);
+  let (tx, rx) = mpsc::channel::<CRes>();
+  let s2 = s.clone();
+  let hc = thread::spawn(move || {
+    let mut res = CRes::default();
+    let mut events_seen = 0i64;
+    let r = std::panic::catch_unwind(std::panic::AssertUnwindSafe(|| {
+      let mut dr = DataReader::from_simple_data_reader(sdr);
+      let zero = Some(StdDuration::from_millis(0));
+      let poll06 = mio_06::Poll::new().unwrap();
+      let mut ev06 = mio_06::Events::with_capacity(8);
+      let mut poll08 = mio_08::Poll::new().unwrap();
+      let mut ev08 = mio_08::Events::with_capacity(8);
+      if v08 {
+        poll08
+          .registry()
+          .register(&mut dr, mio_08::Token(1), mio_08::Interest::READABLE)
+          .unwrap();
+      } else {
+        poll06
+          .register(&dr, mio_06::Token(1), mio_06::Ready::readable(), mio_06::PollOpt::edge())
+          .unwrap();
+      }
+      if s2.install(sched::C) {
+        'outer: loop {
+          let ready = if v08 {
+            poll08.poll(&mut ev08, zero).unwrap();
+            !ev08.is_empty()
+          } else {
+            poll06.poll(&mut ev06, zero).unwrap();
+            !ev06.is_empty()
+          };
+          if !ready {
+            if !sched::blocked("C.nothing_ready") {
+              break 'outer;
+            }
+            continue;
+          }
+          events_seen += 1;
+          sched::yield_point("C.event");
+          if !sched::active() {
+            break 'outer;
+          }
+          loop {
+            // steps inside take: [try_recv]* sdr.drained06 [drain pipe] sdr.drained08
+            //   ([try_take_one] dr.filled_one)* [try_take_one -> None, take from local cache]
+            let got = dr.take_next_sample().expect("take");
+            res.polls += 1;
+            match got {
+              Some(_) => {
+                res.delivered += 1;
+                sched::yield_point("C.took");
+                if !sched::active() {
+                  break 'outer;
+                }
+              }
+              None => {
+                res.pends += 1;
+                sched::yield_point("C.empty");
+                if !sched::active() {
+                  break 'outer;
+                }
+                break;
+              }
+            }
+          }
+        }
+      }
+      sched::finish();
+      // the run is over: what is available to the application but was not handed over?
+      let mut left = 0;
+      while let Ok(Some(_)) = dr.take_next_sample() {
+        left += 1;
+      }
+      left
+    }));
+    sched::finish();
+    match r {
+      Ok(left) => res.leftover = left,
+      Err(_) => res.panicked = true,
+    }
+    res.wakes = events_seen;
+    let _ = tx.send(res);
     drop(_disc_rx);
   });
   conclude(&s, rx, hp, hc)
@@ -440,8 +551,9 @@ fn writer_parts(cap: usize) -> WriterParts {
 
 /// producer thread of the writer-side handshakes: the event loop calling
 /// Writer::process_writer_command whenever it is scheduled (idle when the queue is empty)
-fn spawn_writer_producer(s: Arc<Sched>, ing: WriterIngredients) -> thread::JoinHandle<bool> {
-  thread::spawn(move || {
+fn spawn_writer_producer(s: Arc<Sched>, ing: WriterIngredients) -> Producer {
+  let (rel_tx, rel_rx) = mpsc::channel::<()>();
+  let h = thread::spawn(move || {
     let r = std::panic::catch_unwind(std::panic::AssertUnwindSafe(|| {
       let (ps_tx, _ps_rx) = sync_status_channel(16).unwrap();
       let mut writer = Writer::new(
@@ -460,10 +572,13 @@ fn spawn_writer_producer(s: Arc<Sched>, ing: WriterIngredients) -> thread::JoinH
           }
         }
       }
+      sched::finish();
+      let _ = rel_rx.recv_timeout(WATCHDOG * 2);
     }));
     sched::finish();
     r.is_ok()
-  })
+  });
+  Producer { h, release: rel_tx }
 }
 
 // (D) async_wait_for_acknowledgments
@@ -506,7 +621,128 @@ fn run_d(cap: usize, q0: usize, schedule: &[u8]) -> Obs {
     }));
     sched::finish();
     res.leftover = 1 - res.delivered;
-    res.wakes = cw.wakes.load(Ordering::SeqCst) as i64;
+    res.cw = Some(cw.clone());
+    res.panicked = r.is_err();
+    let _ = tx.send(res);
+  });
+  conclude(&s, rx, hp, hc)
+}
+
+// (C) async_write: n writes one after the other through a command queue of capacity cap
+fn run_c(cap: usize, n: i64, schedule: &[u8]) -> Obs {
+  let WriterParts { ing, dw, _disc_rx } = writer_parts(cap);
+  let s = Sched::new(schedule, MAX_STEPS, false);
+  let hp = spawn_writer_producer(s.clone(), ing);
+  let (tx, rx) = mpsc::channel::<CRes>();
+  let s2 = s.clone();
+  let hc = thread::spawn(move || {
+    let mut res = CRes::default();
+    let (cw, waker) = count_waker();
+    let r = std::panic::catch_unwind(std::panic::AssertUnwindSafe(|| {
+      let mut cx = Context::from_waker(&waker);
+      if n > 0 && s2.install(sched::C) {
+        'outer: for i in 0..n {
+          let mut fut = Box::pin(dw.async_write(Msg { key: 1, seq: i as i32 }, None));
+          loop {
+            res.polls += 1;
+            // steps inside AsyncWrite::poll: [try_send] dw.write_full [store waker]
+            //   dw.write_waker_stored [try_send again]
+            match fut.as_mut().poll(&mut cx) {
+              Poll::Ready(Ok(())) => {
+                res.delivered += 1;
+                if i + 1 < n {
+                  sched::yield_point("C.ready");
+                  if !sched::active() {
+                    break 'outer;
+                  }
+                }
+                break;
+              }
+              Poll::Ready(Err(e)) => panic!("async_write failed: {:?}", e),
+              Poll::Pending => {
+                res.pends += 1;
+                sched::yield_point("C.pending");
+                if !park(&cw) {
+                  break 'outer;
+                }
+              }
+            }
+          }
+        }
+      } else if n == 0 {
+        s2.install(sched::C);
+      }
+    }));
+    sched::finish();
+    res.leftover = n - res.delivered;
+    res.cw = Some(cw.clone());
+    res.panicked = r.is_err();
+    let _ = tx.send(res);
+  });
+  conclude(&s, rx, hp, hc)
+}
+
+// (D2) status-event stream: StatusChannelSender::try_send || StatusReceiverStream::poll_next.
+// Both sides hold the waker mutex for their whole operation, so each call is one step.
+fn run_s(n: i64, cap: usize, schedule: &[u8]) -> Obs {
+  let (sender, receiver) = sync_status_channel::<i64>(cap).unwrap();
+  let s = Sched::new(schedule, MAX_STEPS, false);
+  let (rel_tx, rel_rx) = mpsc::channel::<()>();
+  let s1 = s.clone();
+  let h = thread::spawn(move || {
+    let r = std::panic::catch_unwind(std::panic::AssertUnwindSafe(|| {
+      if s1.install(sched::P) {
+        for i in 0..n {
+          sender.try_send(i).expect("status try_send");
+          sched::yield_point("P.sent");
+        }
+      }
+      sched::finish();
+      let _ = rel_rx.recv_timeout(WATCHDOG * 2);
+      drop(sender);
+    }));
+    sched::finish();
+    r.is_ok()
+  });
+  let hp = Producer { h, release: rel_tx };
+  let (tx, rx) = mpsc::channel::<CRes>();
+  let s2 = s.clone();
+  let hc = thread::spawn(move || {
+    let mut res = CRes::default();
+    let (cw, waker) = count_waker();
+    let r = std::panic::catch_unwind(std::panic::AssertUnwindSafe(|| {
+      use crate::dds::statusevents::StatusEvented;
+      let mut cx = Context::from_waker(&waker);
+      if s2.install(sched::C) {
+        'outer: loop {
+          res.polls += 1;
+          let mut stream = receiver.as_async_status_stream();
+          match Pin::new(&mut stream).poll_next(&mut cx) {
+            Poll::Ready(Some(_)) => {
+              res.delivered += 1;
+              sched::yield_point("C.ready");
+              if !sched::active() {
+                break 'outer;
+              }
+            }
+            Poll::Ready(None) => panic!("status stream ended"),
+            Poll::Pending => {
+              res.pends += 1;
+              sched::yield_point("C.pending");
+              if !park(&cw) {
+                break 'outer;
+              }
+            }
+          }
+        }
+      }
+      sched::finish();
+      while receiver.try_recv().is_ok() {
+        res.leftover += 1;
+      }
+    }));
+    sched::finish();
+    res.cw = Some(cw.clone());
     res.panicked = r.is_err();
     let _ = tx.send(res);
   });
@@ -519,6 +755,9 @@ fn run_d(cap: usize, q0: usize, schedule: &[u8]) -> Obs {
 enum Case {
   A { n: i64, l: Vec<u8> },
   D { cap: usize, q0: usize, l: Vec<u8> },
+  C { cap: usize, n: i64, l: Vec<u8> },
+  B { v08: bool, n: i64, l: Vec<u8> },
+  S { n: i64, cap: usize, l: Vec<u8> },
 }
 
 fn coq_sched(l: &[u8]) -> String {
@@ -530,23 +769,39 @@ impl Case {
     match self {
       Case::A { n, l } => format!("(CaseA {} {})", n, coq_sched(l)),
       Case::D { cap, q0, l } => format!("(CaseD {} {} {})", cap, q0, coq_sched(l)),
+      Case::C { cap, n, l } => format!("(CaseC {} {} {})", cap, n, coq_sched(l)),
+      Case::S { n, cap, l } => format!("(CaseS {} {} {})", n, cap, coq_sched(l)),
+      Case::B { v08, n, l } => format!(
+        "(CaseB {} {} {} {})",
+        if *v08 { "B.V08" } else { "B.V06" },
+        n,
+        NOTIF_CAP,
+        coq_sched(l)
+      ),
     }
   }
   fn run(&self) -> Obs {
     match self {
       Case::A { n, l } => run_a(*n, l),
       Case::D { cap, q0, l } => run_d(*cap, *q0, l),
+      Case::C { cap, n, l } => run_c(*cap, *n, l),
+      Case::B { v08, n, l } => run_b(*v08, *n, l),
+      Case::S { n, cap, l } => run_s(*n, *cap, l),
     }
   }
   fn sched(&self) -> &[u8] {
     match self {
-      Case::A { l, .. } | Case::D { l, .. } => l,
+      Case::A { l, .. } | Case::D { l, .. } | Case::C { l, .. } | Case::B { l, .. } | Case::S { l, .. } => l,
     }
   }
   fn name(&self) -> &'static str {
     match self {
       Case::A { .. } => "A",
       Case::D { .. } => "D",
+      Case::C { .. } => "C",
+      Case::S { .. } => "D2",
+      Case::B { v08: true, .. } => "B08",
+      Case::B { v08: false, .. } => "B06",
     }
   }
 }
@@ -604,6 +859,29 @@ fn corpus() -> Vec<Case> {
     Case::D { cap: 1, q0: 1, l: s("C P P") },
     Case::D { cap: 2, q0: 2, l: s("C C P C P P") },
     Case::D { cap: 16, q0: 3, l: s("P P C P P") },
+    // (C) the store-waker-after-failed-try_send window: queue filled, next write finds it full,
+    //     writer drains everything, then the waker is stored (witness of the as-found code)
+    Case::C { cap: 16, n: 17, l: [vec![1u8; 17], vec![0u8; 32], vec![1u8]].concat() },
+    Case::C { cap: 1, n: 2, l: s("C C P P C") },
+    Case::C { cap: 2, n: 4, l: s("C C C P P P P C C") },
+    Case::C { cap: 2, n: 5, l: s("C C C P C P C C P P C") },
+    Case::C { cap: 3, n: 0, l: s("C P") },
+    // (B) notification between "take returned nothing" and the next poll; during the drain;
+    //     between drain and fill; more samples than the notification channel holds
+    Case::B { v08: true, n: 1, l: s("P P P P C C C C C C") },
+    Case::B { v08: false, n: 1, l: s("P P P P C C C C C C") },
+    Case::B { v08: true, n: 2, l: s("P P P P C C P P P P C C C C C C C") },
+    Case::B { v08: false, n: 2, l: s("P P P P C C P P P P C C C C C C C") },
+    Case::B { v08: true, n: 2, l: s("P P P P C C C P P P P C C C C C C") },
+    Case::B { v08: false, n: 2, l: s("P P P P C C C P P P P C C C C C C") },
+    Case::B { v08: false, n: 7, l: s("P P P P P P P P P P P P P P P P P P P P P P P P P P P P C C C") },
+    Case::B { v08: true, n: 7, l: s("P P P P P P P P P P P P P P P P P P P P P P P P P P P P C C C") },
+    Case::B { v08: false, n: 2, l: s("P P P P C C C C C P P P C P C C C") },
+    Case::B { v08: true, n: 2, l: s("P P P P C C C C C P P C P P C C C") },
+    // (D2) event sent between two polls / while parked / before the first poll
+    Case::S { n: 2, cap: 4, l: s("C P C C P C") },
+    Case::S { n: 3, cap: 3, l: s("P P P C C C C C") },
+    Case::S { n: 1, cap: 1, l: s("C C P C C") },
   ]
 }
 
@@ -621,8 +899,18 @@ fn gen_random(r: &mut Rng) -> Case {
     t = 1 - t;
   }
   l.truncate(len);
-  match r.below(2) {
+  match r.below(6) {
+    5 => {
+      let n = r.range(0, 6);
+      Case::S { n, cap: (n + r.range(0, 3)).max(1) as usize, l }
+    }
     0 => Case::A { n: r.range(0, 6), l },
+    3 => Case::B { v08: true, n: r.range(0, 7), l },
+    4 => Case::B { v08: false, n: r.range(0, 7), l },
+    1 => {
+      let cap = *r.pick(&[1usize, 2, 3, 16]);
+      Case::C { cap, n: r.range(0, 2 * cap as i64 + 3), l }
+    }
     _ => {
       let cap = *r.pick(&[1usize, 2, 3, 16]);
       let q0 = r.range(0, cap as i64) as usize;
@@ -640,7 +928,7 @@ pub fn run(args: &Args) -> i32 {
     "obs",
   );
   let thorough = args.tier == "thorough";
-  let (runs, maxlen) = if thorough { (7, 3) } else { (5, 3) };
+  let (runs, maxlen) = if thorough { (6, 3) } else { (4, 3) };
   let mut cases: Vec<Case> = corpus();
   let n_corpus = cases.len();
   let scheds = enumerate(runs, maxlen);
@@ -649,6 +937,23 @@ pub fn run(args: &Args) -> i32 {
   }
   for l in &scheds {
     cases.push(Case::D { cap: 2, q0: if l.len() % 2 == 0 { 0 } else { 2 }, l: l.clone() });
+  }
+  for l in &scheds {
+    // leading burst of writes so that the queue is full when the interesting part starts
+    let mut ll = vec![1u8; if l.len() % 3 == 0 { 0 } else { 2 }];
+    ll.extend_from_slice(l);
+    cases.push(Case::C { cap: 2, n: 5, l: ll });
+  }
+  for l in &scheds {
+    // the producer has a head start of one full notification so that the consumer is not
+    // simply blocked during the whole enumerated part
+    let mut ll = vec![0u8; if l.len() % 2 == 0 { 4 } else { 0 }];
+    ll.extend_from_slice(l);
+    cases.push(Case::B { v08: true, n: 2, l: ll.clone() });
+    cases.push(Case::B { v08: false, n: 2, l: ll });
+  }
+  for l in &scheds {
+    cases.push(Case::S { n: 2, cap: 2, l: l.clone() });
   }
   let n_exh = cases.len() - n_corpus;
   let total = cases.len() + args.n;
